@@ -222,3 +222,17 @@ Example C04_nonvacuous_invariants :
   TInv nv_table /\ Agree nv_table /\ pk_short nv_table /\ u_wf nv_table /\ lu_wf nv_table /\
   live nv_table (mkO nv_payload 1).
 Proof. exact agree_nonvacuous. Qed.
+
+(* ---- the key set of an object at the level where Go distinguishes a nil Key from the empty one (Table/KeySetNil.v):
+   built the usual way (index.String per string, NewKeySet) it holds exactly the given strings, in order - which is
+   what lets Table/Model.v take an object's keys as a list of byte strings; before 4c2d0ee (D17) a set starting with
+   the empty string held nothing *)
+From SV Require Import Table.KeySetNil.
+Theorem C04_keyset_holds_its_keys : forall ss, foreach (new_keyset (map index_string ss)) = ss.
+Proof. exact keyset_holds_its_keys. Qed.
+Print Assumptions C04_keyset_holds_its_keys.
+
+Theorem C04_keyset_nil_head_refuted :
+  exists ss, ss = [[]; [120]]%N /\ foreach (new_keyset_old (map index_string ss)) = [].
+Proof. exact keyset_nil_head_refuted. Qed.
+Print Assumptions C04_keyset_nil_head_refuted.
